@@ -52,6 +52,82 @@ type c11Env struct {
 	newFin  []int
 	allFin  []int
 	workers []*c11Worker
+	arm     []string        // per caller: the hold point it is armed for ("" = none)
+	holdCh  []chan struct{} // per caller: released by unhold
+	held    atomic.Int32    // callers parked at a hold point (they own pe.lock)
+	dead    bool            // the watchdog fired in this section: no further operation is attempted
+	stuck   string          // what the watchdog saw
+}
+
+// goroutines of earlier sections that never ended (a lost batch makes Add / Wait block for ever):
+// reported once as `stuck`, then ignored by the quiescence detection of later sections.
+var c11Zombies = map[int64]bool{}
+
+// c11HookContainer wraps the real bulk/chunk container: it lets the harness park a caller INSIDE the
+// executor's critical section (the container is only called with pe.lock held), so that ticks, Flush and
+// Wait of other goroutines can be fired while a producer is at the threshold / has removed the batch.
+type c11HookContainer struct {
+	inner TaskContainer
+	e     *c11Env
+}
+
+func (h *c11HookContainer) AddTask(task any) bool {
+	full := h.inner.AddTask(task)
+	if full {
+		h.e.holdAt("full")
+	} else {
+		h.e.holdAt("notfull")
+	}
+	return full
+}
+
+func (h *c11HookContainer) Execute(tasks any) { h.inner.Execute(tasks) }
+
+func (h *c11HookContainer) RemoveAll() any {
+	v := h.inner.RemoveAll()
+	h.e.holdAt("removed")
+	return v
+}
+
+//go:noinline
+func c11HoldPark(ch chan struct{}) { <-ch }
+
+// holdAt parks the calling caller-goroutine if it is armed for this point. "removed" is the RemoveAll of
+// addAndCheck (the producer owns the batch, inflight = 1); inside Flush the same call is point "fremoved".
+func (e *c11Env) holdAt(point string) {
+	buf := make([]byte, 4096)
+	n := runtime.Stack(buf, false)
+	st := string(buf[:n])
+	f := strings.Fields(st)
+	id, _ := strconv.ParseInt(f[1], 10, 64)
+	if point == "removed" && !strings.Contains(st, ").addAndCheck(") {
+		point = "fremoved"
+	}
+	for wi, w := range e.workers {
+		if w.goid == id {
+			e.mu.Lock()
+			armed := e.arm[wi] == point
+			ch := e.holdCh[wi]
+			e.mu.Unlock()
+			if armed {
+				e.held.Add(1)
+				c11HoldPark(ch)
+				e.held.Add(-1)
+			}
+			return
+		}
+	}
+}
+
+func (e *c11Env) unhold(w int) {
+	e.mu.Lock()
+	e.arm[w] = ""
+	ch := e.holdCh[w]
+	e.mu.Unlock()
+	select {
+	case ch <- struct{}{}:
+	default:
+	}
 }
 
 type c11Worker struct {
@@ -160,6 +236,8 @@ func (e *c11Env) classify(g c11G) string {
 	switch g.state {
 	case "chan receive":
 		switch {
+		case in == "c11HoldPark":
+			return "hold"
 		case in == "c11Gate":
 			return "cb"
 		case in == "c11WorkerLoop":
@@ -186,10 +264,28 @@ func (e *c11Env) classify(g c11G) string {
 			return "wgwait"
 		case in == "(*PeriodicalExecutor).Wait":
 			return "wbar"
+		case in == "(*PeriodicalExecutor).addAndCheck":
+			return "alock"
+		case strings.HasPrefix(in, "(*PeriodicalExecutor).Flush.func1"):
+			return "flock"
+		case in == "(*PeriodicalExecutor).shallQuit":
+			return "qlock"
 		}
 	case "sleep":
 		if in == "(*PeriodicalExecutor).Wait" && atomic.LoadInt32(&e.pe.inflight) > 0 {
 			return "spin"
+		}
+		return ""
+	}
+	// ("semacquire" is not in the list: it is also the state of a goroutine waiting for a runtime-internal
+	// semaphore, e.g. the GC's world semaphore while this harness holds it for the dump - a transient state)
+	// blocked for good at a point the protocol does not have (a changed tree): still a parking point, so that
+	// the run reaches "quiescence" at once and the monitor / the model report it instead of a watchdog timeout
+	switch g.state {
+	case "chan receive", "chan send", "select", "sync.Mutex.Lock", "sync.RWMutex.Lock", "sync.RWMutex.RLock",
+		"sync.WaitGroup.Wait", "sync.Cond.Wait", "chan receive (nil chan)", "chan send (nil chan)", "select (no cases)":
+		if in != "" && !strings.HasPrefix(in, "c11") && !strings.HasPrefix(in, "(*c11") && !strings.HasPrefix(in, "TestVerif") {
+			return "park:" + strings.ReplaceAll(in, " ", "")
 		}
 	}
 	return ""
@@ -200,14 +296,23 @@ type c11Snap struct {
 	flushers []string
 }
 
-// quiesce polls until every goroutine of the package is parked; returns nil on timeout.
+// watchdog: an operation that has not reached quiescence after this much real time is `stuck`
+// (every protocol step is a few microseconds of work; parked-for-good goroutines are quiescent at once)
+const c11Watchdog = 4 * time.Second
+
+// quiesce polls until every goroutine of the package is parked; on a watchdog timeout it returns nil,
+// marks the section dead and keeps the goroutines that were still moving in e.stuck.
 func (e *c11Env) quiesce(self int64) *c11Snap {
-	deadline := time.Now().Add(20 * time.Second)
+	if e.dead {
+		return nil
+	}
+	deadline := time.Now().Add(c11Watchdog)
 	for i := 0; ; i++ {
 		snap := &c11Snap{workers: make([]string, len(e.workers))}
 		ok := true
+		var moving []string
 		for _, g := range c11Dump() {
-			if g.id == self || !strings.Contains(g.stack, "go-zero/core/executors.") {
+			if g.id == self || c11Zombies[g.id] || !strings.Contains(g.stack, "go-zero/core/executors.") {
 				continue
 			}
 			if strings.Contains(g.stack, "c11Foreign") {
@@ -216,7 +321,8 @@ func (e *c11Env) quiesce(self int64) *c11Snap {
 			cl := e.classify(g)
 			if cl == "" {
 				ok = false
-				break
+				moving = append(moving, strings.ReplaceAll(g.state, " ", "_")+"@"+strings.ReplaceAll(c11Inner(g.stack), " ", ""))
+				continue
 			}
 			isWorker := false
 			for wi, w := range e.workers {
@@ -230,7 +336,7 @@ func (e *c11Env) quiesce(self int64) *c11Snap {
 					snap.flushers = append(snap.flushers, cl)
 				} else if cl != "idle" {
 					ok = false // a goroutine of an earlier section still moving, or unknown
-					break
+					moving = append(moving, "foreign:"+cl)
 				}
 			}
 		}
@@ -246,6 +352,12 @@ func (e *c11Env) quiesce(self int64) *c11Snap {
 			return snap
 		}
 		if time.Now().After(deadline) {
+			sort.Strings(moving)
+			e.dead = true
+			e.stuck = "stuck moving=" + strings.Join(moving, ",")
+			if len(moving) == 0 {
+				e.stuck = "stuck moving=?"
+			}
 			return nil
 		}
 		if i < 200 {
@@ -253,6 +365,20 @@ func (e *c11Env) quiesce(self int64) *c11Snap {
 		} else {
 			time.Sleep(20 * time.Microsecond)
 		}
+	}
+}
+
+// reap is called at the end of a section: whatever goroutine of the package is still there and is not an
+// idle worker will never end (its executor is garbage now); later sections ignore it.
+func (e *c11Env) reap(self int64) {
+	for _, g := range c11Dump() {
+		if g.id == self || !strings.Contains(g.stack, "go-zero/core/executors.") || strings.Contains(g.stack, "c11Foreign") {
+			continue
+		}
+		if g.state == "chan receive" && c11Inner(g.stack) == "c11WorkerLoop" {
+			continue
+		}
+		c11Zombies[g.id] = true
 	}
 }
 
@@ -270,10 +396,13 @@ func c11Ints(xs []int, sep string) string {
 func (e *c11Env) observe(self int64) string {
 	snap := e.quiesce(self)
 	if snap == nil {
-		return "TIMEOUT-not-quiescent"
+		return e.stuck
 	}
 	var cont []int
-	e.pe.Sync(func() {
+	// every goroutine is parked (a caller parked at a hold point even owns pe.lock, and a changed tree may
+	// have leaked the lock): read without pe.Sync, nothing moves
+	sync_ := func(fn func()) { fn() }
+	sync_(func() {
 		for _, t := range e.peek() {
 			cont = append(cont, t.(int))
 		}
@@ -297,7 +426,7 @@ func (e *c11Env) observe(self int64) string {
 		fl = strings.Join(snap.flushers, ",")
 	}
 	g := 0
-	e.pe.Sync(func() {
+	sync_(func() {
 		if e.pe.guarded {
 			g = 1
 		}
@@ -353,6 +482,143 @@ func c11Cfg(kind string, max, iv, p, gate, pm int) string {
 	return fmt.Sprintf("kind=%s max=%d iv=%d P=%d gate=%d pm=%d", kind, max, iv, p, gate, pm)
 }
 
+// c11T encodes a task: 8*id + byte size (the size only matters to the chunk executor)
+func c11T(id, size int) int { return 8*id + size }
+
+// c11Race generates one section of the class "a tick (or Flush / Wait / Add of somebody else) is taken while a
+// producer is inside the critical section of a threshold-reaching Add", optionally after an idle period of
+// around idleRound intervals, so that the tick is the one on which the flusher considers quitting.
+func c11Race(r *verifh.Rng) verifh.Section {
+	kind := r.PickS("bulk", "bulk", "chunk")
+	max := r.Pick(1, 2, 2, 3)
+	iv := r.Pick(1, 10, 1000)
+	p := r.Range(2, 3)
+	gate := r.Pick(0, 0, 1)
+	id := 1
+	var ops []string
+	var open_ []int // first tasks of batches that may sit in a gated callback
+	size := func() int { return 1 }
+	if kind == "chunk" {
+		max = r.Pick(2, 3, 5)
+	}
+	// fill brings the container to exactly one task short of the threshold, the next add reaches it
+	fill := func(w int) int {
+		first := -1
+		if kind == "chunk" {
+			if max > 1 {
+				x := c11T(id, max-1)
+				id++
+				ops = append(ops, fmt.Sprintf("add %d %d", w, x))
+				first = x
+			}
+			return first
+		}
+		for i := 0; i < max-1; i++ {
+			x := c11T(id, size())
+			id++
+			ops = append(ops, fmt.Sprintf("add %d %d", w, x))
+			if first < 0 {
+				first = x
+			}
+		}
+		return first
+	}
+	relAll := func() {
+		if gate == 1 {
+			for _, f := range open_ {
+				ops = append(ops, fmt.Sprintf("rel %d ok", f))
+			}
+		}
+		open_ = nil
+	}
+	// warm-up: start the flusher; variants leave `commanded` set or cleared
+	switch r.Intn(3) {
+	case 0: // one task, flushed by a tick
+		x := c11T(id, 1)
+		id++
+		ops = append(ops, fmt.Sprintf("add 0 %d", x))
+		if !(kind == "bulk" && max == 1) && !(kind == "chunk" && max <= 1) {
+			ops = append(ops, "tick")
+		}
+		open_ = append(open_, x)
+		relAll()
+	case 1: // a full batch through the commander
+		f := fill(0)
+		x := c11T(id, 1)
+		id++
+		ops = append(ops, fmt.Sprintf("add 0 %d", x))
+		if f < 0 {
+			f = x
+		}
+		open_ = append(open_, f)
+		relAll()
+	default: // nothing: the racing Add is the one that starts the flusher
+	}
+	for i := r.Pick(0, 1, 1, 2, 2); i > 0; i-- {
+		ops = append(ops, "tick") // clears `commanded`, sets `last`
+	}
+	f := fill(r.Intn(p))
+	// idle period around the quit boundary
+	ops = append(ops, fmt.Sprintf("t+ %d", r.Pick(10*iv+1, 10*iv+1, 11*iv, 10*iv, 10*iv-1, 1)))
+	w := r.Intn(p)
+	pt := r.PickS("full", "full", "removed", "removed", "notfull", "fremoved")
+	x := c11T(id, 1)
+	id++
+	ops = append(ops, fmt.Sprintf("hold %d %s", w, pt))
+	if pt == "fremoved" {
+		ops = append(ops, fmt.Sprintf("%s %d", r.PickS("flush", "wait"), w))
+	} else {
+		ops = append(ops, fmt.Sprintf("add %d %d", w, x))
+		if f < 0 {
+			f = x
+		}
+	}
+	// what the others do while w is inside the critical section
+	for i, n := 0, r.Range(1, 3); i < n; i++ {
+		o := (w + 1 + r.Intn(p-1)) % p
+		k := r.Intn(6)
+		if i == 0 && r.Chance(3, 4) {
+			k = 0
+		}
+		switch k {
+		case 0, 1, 2:
+			ops = append(ops, "tick")
+		case 3:
+			ops = append(ops, fmt.Sprintf("wait %d", o))
+		case 4:
+			ops = append(ops, fmt.Sprintf("flush %d", o))
+		default:
+			y := c11T(id, 1)
+			id++
+			ops = append(ops, fmt.Sprintf("add %d %d", o, y))
+		}
+	}
+	ops = append(ops, fmt.Sprintf("unhold %d", w))
+	if f >= 0 {
+		open_ = append(open_, f)
+	}
+	if r.Chance(1, 2) {
+		relAll()
+	}
+	// tail: nothing (a later Add would restart a flusher that quit wrongly and rescue the batch), or a few ops
+	for i := r.Pick(0, 0, 0, 1, 3); i > 0; i-- {
+		switch r.Intn(4) {
+		case 0:
+			ops = append(ops, "tick")
+		case 1:
+			ops = append(ops, fmt.Sprintf("wait %d", r.Intn(p)))
+		case 2:
+			ops = append(ops, fmt.Sprintf("t+ %d", 10*iv+1), "tick")
+		default:
+			y := c11T(id, 1)
+			id++
+			ops = append(ops, fmt.Sprintf("add %d %d", r.Intn(p), y))
+		}
+	}
+	ops = append(ops, "drain")
+	return verifh.Section{Cfg: c11Cfg(kind, max, iv, p, gate, 0), Ops: ops}
+}
+
 func c11Gen(r *verifh.Rng) []verifh.Section {
 	var secs []verifh.Section
 	// scripted: hand-over window (batch taken by a producer, background busy) then Wait
@@ -377,12 +643,21 @@ func c11Gen(r *verifh.Rng) []verifh.Section {
 	// scripted: idle quit and restart
 	secs = append(secs, verifh.Section{Cfg: c11Cfg("bulk", 3, 10, 2, 0, 0),
 		Ops: []string{"add 0 1", "tick", "t+ 100", "tick", "t+ 1", "tick", "add 0 2", "tick", "add 1 3", "wait 0", "t+ 101", "tick", "tick", "add 0 4", "drain"}})
+	// scripted: idle for more than idleRound intervals, then the tick is taken while a producer at the threshold
+	// holds the lock (before / after RemoveAll): the flusher must not quit (inflight > 0 under the lock)
+	for _, pt := range []string{"full", "removed"} {
+		secs = append(secs, verifh.Section{Cfg: c11Cfg("bulk", 2, 10, 2, 0, 0),
+			Ops: []string{"add 0 1", "t+ 101", "hold 1 " + pt, "add 1 2", "tick", "unhold 1", "drain"}})
+	}
+	for i := verifh.Scale(24, 400); i > 0; i-- {
+		secs = append(secs, c11Race(r))
+	}
 	nsec := verifh.Scale(70, 900)
 	for i := 0; i < nsec; i++ {
 		kind := r.PickS("bulk", "bulk", "chunk")
 		max := r.Pick(1, 2, 2, 3, 3, 4, 6)
 		if kind == "chunk" {
-			max = r.Pick(1, 3, 5, 8)
+			max = r.Pick(1, 3, 5, 8, 12)
 		}
 		if r.Chance(1, 25) {
 			max = r.Pick(0, -1)
@@ -399,24 +674,43 @@ func c11Gen(r *verifh.Rng) []verifh.Section {
 		var ops []string
 		id := 1
 		var added []int
+		bytes := 0 // the generator's guess of the bytes in the chunk container (exact unless adds race)
 		for j := 0; j < nops; j++ {
 			w := r.Intn(p)
 			switch x := r.Intn(100); {
-			case x < 42:
-				ops = append(ops, fmt.Sprintf("add %d %d", w, id))
-				added = append(added, id)
+			case x < 40:
+				sz := r.Intn(8)
+				if kind == "chunk" && r.Chance(3, 5) {
+					// aim at the byte threshold: one below, exactly, one above
+					if want := max + r.Pick(-1, 0, 1) - bytes; want >= 0 && want <= 7 {
+						sz = want
+					}
+				}
+				if bytes += sz; bytes >= max {
+					bytes = 0
+				}
+				t := c11T(id, sz)
+				ops = append(ops, fmt.Sprintf("add %d %d", w, t))
+				added = append(added, t)
 				id++
-			case x < 50:
+			case x < 48:
 				ops = append(ops, fmt.Sprintf("flush %d", w))
-			case x < 60:
+				bytes = 0
+			case x < 58:
 				ops = append(ops, fmt.Sprintf("wait %d", w))
-			case x < 72:
+				bytes = 0
+			case x < 70:
 				ops = append(ops, "tick")
-			case x < 80:
+			case x < 77:
 				ops = append(ops, fmt.Sprintf("t+ %d", r.Pick(1, iv, 10*iv-1, 10*iv, 10*iv+1, 11*iv, 5*iv)))
-			case x < 84:
+			case x < 81:
 				// force the idle-quit path: more than 10 intervals, two ticks
 				ops = append(ops, fmt.Sprintf("t+ %d", 10*iv+1), "tick", "tick")
+				bytes = 0
+			case x < 85:
+				ops = append(ops, fmt.Sprintf("hold %d %s", w, r.PickS("full", "removed", "notfull", "fremoved")))
+			case x < 89:
+				ops = append(ops, fmt.Sprintf("unhold %d", w))
 			default:
 				if gate == 1 && len(added) > 0 {
 					k := added[r.Intn(len(added))]
@@ -438,7 +732,8 @@ func c11Gen(r *verifh.Rng) []verifh.Section {
 
 // ---------------------------------------------------------------------------------------------- executor
 
-func c11Size(x int) int { return x%3 + 1 }
+// a task is the number 8*id + size: the generator chooses the byte size of every chunk task (0..7)
+func c11Size(x int) int { return x % 8 }
 
 func TestVerifC11(t *testing.T) {
 	logx.Disable()
@@ -463,6 +758,7 @@ func TestVerifC11(t *testing.T) {
 			e.peek = func() []any { return be.container.tasks }
 			addFn = func(x int) { _ = be.Add(x) }
 		}
+		e.pe.container = &c11HookContainer{inner: e.pe.container, e: e}
 		e.pe.newTicker = func(time.Duration) timex.Ticker {
 			tk := &c11Ticker{c: make(chan time.Time)}
 			e.mu.Lock()
@@ -477,12 +773,17 @@ func TestVerifC11(t *testing.T) {
 			go c11WorkerLoop(w, ready)
 			<-ready
 			e.workers = append(e.workers, w)
+			e.arm = append(e.arm, "")
+			e.holdCh = append(e.holdCh, make(chan struct{}))
 		}
 		idle := func(w int) bool {
 			snap := e.quiesce(self)
 			return snap != nil && snap.workers[w] == "idle"
 		}
 		step := func(op []string) string {
+			if e.dead {
+				return e.stuck // the watchdog fired earlier in this section
+			}
 			switch op[0] {
 			case "add", "flush", "wait":
 				w := verifh.Atoi(op[1])
@@ -499,9 +800,34 @@ func TestVerifC11(t *testing.T) {
 					e.workers[w].cmd <- func() { e.pe.Wait() }
 				}
 				return e.observe(self)
+			case "hold":
+				// arm caller w: its next pass through the named point of the critical section parks it there
+				w := verifh.Atoi(op[1])
+				if w < 0 || w >= p || !idle(w) {
+					return "skip"
+				}
+				switch op[2] {
+				case "full", "notfull", "removed", "fremoved":
+				default:
+					return "bad-op"
+				}
+				e.mu.Lock()
+				e.arm[w] = op[2]
+				e.mu.Unlock()
+				return e.observe(self)
+			case "unhold":
+				w := verifh.Atoi(op[1])
+				if w < 0 || w >= p {
+					return "skip"
+				}
+				if e.quiesce(self) == nil {
+					return e.stuck
+				}
+				e.unhold(w)
+				return e.observe(self)
 			case "tick":
 				if e.quiesce(self) == nil {
-					return "TIMEOUT-not-quiescent"
+					return e.stuck
 				}
 				d := 0
 				if e.tick() {
@@ -510,7 +836,7 @@ func TestVerifC11(t *testing.T) {
 				return fmt.Sprintf("d=%d ", d) + e.observe(self)
 			case "rel":
 				if e.quiesce(self) == nil {
-					return "TIMEOUT-not-quiescent"
+					return e.stuck
 				}
 				if !e.release(verifh.Atoi(op[1]), op[2] == "panic") {
 					return "skip"
@@ -520,19 +846,28 @@ func TestVerifC11(t *testing.T) {
 				timex.VerifAdvance(time.Duration(verifh.Atoi(op[1])))
 				return e.observe(self)
 			case "drain":
+				for w := 0; w < p; w++ {
+					if e.quiesce(self) == nil {
+						return e.stuck
+					}
+					e.unhold(w)
+				}
 				for i := 0; i < 1000; i++ {
 					if e.quiesce(self) == nil {
-						return "TIMEOUT-not-quiescent"
+						return e.stuck
 					}
 					if !e.releaseAll() {
 						break
 					}
 				}
+				if e.quiesce(self) == nil {
+					return e.stuck
+				}
 				e.workers[p].cmd <- func() { e.pe.Wait() }
 				for i := 0; i < 1000; i++ {
 					snap := e.quiesce(self)
 					if snap == nil {
-						return "TIMEOUT-not-quiescent"
+						return e.stuck
 					}
 					if !e.releaseAll() {
 						break
@@ -549,6 +884,11 @@ func TestVerifC11(t *testing.T) {
 		}
 		done := func() {
 			// let the background goroutine of this section quit (not part of the trace)
+			for w := 0; w < p && !e.dead; w++ {
+				if e.quiesce(self) != nil {
+					e.unhold(w)
+				}
+			}
 			for i := 0; i < 50; i++ {
 				e.releaseAll()
 				snap := e.quiesce(self)
@@ -561,6 +901,8 @@ func TestVerifC11(t *testing.T) {
 			for _, w := range e.workers {
 				close(w.cmd)
 			}
+			e.dead = false
+			e.reap(self)
 			timex.VerifClockOff()
 		}
 		return step, done
